@@ -60,6 +60,12 @@ def replay_batch(module, tier, jobs, jit, seed, timeout=3000):
     env = dict(os.environ)
     if jit:
         env.pop('NUMBA_DISABLE_JIT', None)
+        if module.rsplit('.', 1)[-1] in ('c20', 'c13'):
+            # index-safety obligations: the compiled build raises IndexError only with bounds checking on; a separate,
+            # throw-away cache directory keeps bounds-checked objects away from the normal numba cache
+            import tempfile
+            env['NUMBA_BOUNDSCHECK'] = '1'
+            env['NUMBA_CACHE_DIR'] = os.path.join(tempfile.gettempdir(), 'vf_numba_boundscheck')
     else:
         env['NUMBA_DISABLE_JIT'] = '1'
     req = dict(module=module, tier=tier, jobs=jobs, jit=jit, seed=seed)
@@ -215,7 +221,9 @@ def main(argv=None):
         functions.update(r['functions'])
         for inc in r['inconclusive']:
             inconclusive.append(dict(unit=r['id'], **inc))
-        if r['reach_ok'] == 0 and not any(i['kind'] == 'crash' for i in r['inconclusive']):
+        # vacuous = every path's final feasibility query came back UNSAT; undecided (unknown / budget) paths are
+        # reported as inconclusive instead
+        if r['reach_ok'] == 0 and not r['inconclusive']:
             vacuous.append(r['id'])
         if r['samples'] and len(samples) < 6:
             samples.append(r['samples'][0])
